@@ -24,6 +24,8 @@ pub struct Injection {
     pub syscall: &'static str,
     pub errno: &'static str,
     pub when: u32,
+    /// this call and every later one
+    pub persistent: bool,
 }
 
 pub enum Rec {
@@ -79,7 +81,7 @@ impl Probe {
             cmd = Command::new("strace");
             cmd.arg("-f").arg("--seccomp-bpf").arg("-o").arg(&log).arg("-e").arg(TRACE_SET);
             if let Some(i) = inject {
-                cmd.arg("-e").arg(format!("inject={}:error={}:when={}", i.syscall, i.errno, i.when));
+                cmd.arg("-e").arg(format!("inject={}:error={}:when={}{}", i.syscall, i.errno, i.when, if i.persistent { "+" } else { "" }));
             }
             cmd.arg(&path);
             strace_log = Some(log);
